@@ -34,7 +34,7 @@ class Inconclusive(Exception):
 class Run:
     """One execution of a scenario under a given schedule prefix."""
 
-    def __init__(self, layer, actors, prefix=(), on_step=None, step_cap=4000, default="nonpreemptive", rng=None, fault=None):
+    def __init__(self, layer, actors, prefix=(), on_step=None, step_cap=4000, default="nonpreemptive", rng=None, fault=None, policy=None):
         self.layer = layer
         self.actors = {n: ActorState(n, f) for n, f in actors.items()}
         self.order = list(actors)
@@ -45,6 +45,7 @@ class Run:
         self.rng = rng
         self.trace = []        # (enabled tuple, chosen, current)
         self.fault = fault     # callable(ev) -> exception or None
+        self.policy = policy   # callable(run, enabled, current) -> actor name or None: a directed schedule (overrides prefix/default)
         layer.hook = self._hook
 
     # runs in actor threads
@@ -95,7 +96,10 @@ class Run:
                 break
             if step >= self.step_cap:
                 raise Inconclusive("step cap reached")
-            if step < len(self.prefix) and self.prefix[step] in enabled:
+            directed = self.policy(self, enabled, current) if self.policy is not None else None
+            if directed in enabled:
+                chosen = directed
+            elif step < len(self.prefix) and self.prefix[step] in enabled:
                 chosen = self.prefix[step]
             elif self.default == "random" and self.rng is not None:
                 chosen = self.rng.choice(enabled)
